@@ -252,16 +252,73 @@ class TextArg(Arg):
 
     def samples(self, rng, n):
         if self.sampler:
-            return [self.sampler(rng) for _ in range(n)]
+            out = [self.sampler(rng) for _ in range(n * 2)]
+            if self.nonempty:
+                out = [x for x in out if x != ""] or ["x"]
+            return out
         alpha = "aZ09 &<>;\"'é€\n\t."
         return ["" if not self.nonempty else "x"] + ["".join(rng.choice(alpha) for _ in range(rng.randint(1, 8))) for _ in range(n)]
+
+
+class InstArg(Arg):
+    """instance of a concrete repo class with (possibly symbolic) fields; pre-existing object (fresh=False)"""
+
+    def __init__(self, name, cls, fields, build):
+        self.name = name; self.cls = cls; self.fields = fields; self.build = build
+
+    def make(self, it):
+        vals = {}
+        asm = []
+        for k, a in self.fields.items():
+            if isinstance(a, Arg):
+                v, am = a.make(it)
+                vals[k] = v; asm += am
+            else:
+                vals[k] = a
+        return SObj(self.cls, vals, fresh=False, label=self.name), asm
+
+    def concretize(self, model, value):
+        kw = {}
+        for k, a in self.fields.items():
+            kw[k] = a.concretize(model, value.fields[k]) if isinstance(a, Arg) else a
+        return self.build(**kw)
+
+    def samples(self, rng, n):
+        out = []
+        for _ in range(max(4, n)):
+            kw = {k: (rng.choice(a.samples(rng, 6)) if isinstance(a, Arg) else a) for k, a in self.fields.items()}
+            try:
+                out.append(self.build(**kw))
+            except Exception:
+                pass
+        return out
+
+    def check(self, it, v):
+        return isinstance(v, SObj) and v.cls is self.cls or isinstance(v, self.cls)
+
+
+class TupleArg(Arg):
+    def __init__(self, name, items):
+        self.name = name; self.items = items
+
+    def make(self, it):
+        vs = []; asm = []
+        for a in self.items:
+            v, am = a.make(it); vs.append(v); asm += am
+        return tuple(vs), asm
+
+    def concretize(self, model, value):
+        return tuple(a.concretize(model, v) for a, v in zip(self.items, value))
+
+    def samples(self, rng, n):
+        return [tuple(rng.choice(a.samples(rng, 4)) for a in self.items) for _ in range(n)]
 
 
 # ------------------------------------------------------------------- contract
 class Contract:
     def __init__(self, target, args, requires=(), ensures=(), raises=(), props=(), kind="top",
                  modifies=(), call=None, notes="", native_only=False, setup=None, max_paths=None,
-                 samples=200, kf=None, result_filter=None, split=(), shards=1, returns_expr=None, gen=None):
+                 samples=200, kf=None, result_filter=None, split=(), shards=1, returns_expr=None, gen=None, requires_symbolic=(), tier="quick"):
         """target: 'module:Qual.name'
         args: [Arg]  (positional parameters of the function, in order; self first for methods)
         requires: [expr]                      extra preconditions over the parameter names
@@ -277,6 +334,8 @@ class Contract:
         self.native_only = native_only; self.setup = setup; self.max_paths = max_paths
         self.nsamples = samples; self.kf = list(kf or [])
         self.split = list(split); self.shards = shards; self.returns_expr = returns_expr; self.gen = gen
+        self.tier = tier          # 'thorough': generated and discharged only in the thorough tier
+        self.requires_symbolic = list(requires_symbolic)   # narrows the *proved* domain only (stated in notes); native evaluation ignores it
 
     def resolve(self):
         mod, qual = self.target.split(":")
@@ -289,11 +348,21 @@ class Contract:
                 o = getattr(o, part)
         if isinstance(o, (staticmethod, classmethod)):
             o = o.__func__
+        import functools as _ft
+        if isinstance(o, _ft.singledispatchmethod):
+            o = o.func
+        if isinstance(o, property):
+            o = o.fget
         return m, o
 
 
-class Namespace:
-    pass
+def meth(name):
+    """call hook: invoke method `name` on the first argument (dispatch resolved like Python does)"""
+    def call(it, fn, args):
+        if it is None:
+            return getattr(args[0], name)(*args[1:])
+        return it.call(it.getattr(args[0], name), list(args[1:]), {})
+    return call
 
 
 def spec_namespace():
@@ -333,6 +402,7 @@ def native_check(contract, fn, concrete_args):
             else:
                 result = fn(*concrete_args)
         env["warnings_"] = [x.category for x in w]
+        env["ghost"] = {"warnings": [(x.category, str(x.message)) for x in w]}
     except Exception as e:
         env["exc"] = e
         allowed = False
@@ -406,6 +476,7 @@ class Verifier:
         self.install_callsite_contracts(contract, fn)
         # ---- symbolic
         it.current_target = fn
+        self._used_callsite = False
         argvalues = []
         assumptions = []
         for a in contract.args:
@@ -432,6 +503,8 @@ class Verifier:
                                max_paths=contract.max_paths or C.MAX_PATHS)
             for pi, p in enumerate(paths):
                 npaths += 1
+                if any(c[0] == "contract" for c in p.st.ghost.get("calls", [])):
+                    self._used_callsite = True
                 if p.kind == "unsupported":
                     unsupported.append(p.value)
                     continue
@@ -465,9 +538,26 @@ class Verifier:
         rep.sample({"function": fname, "paths": npaths, "obligations": nob,
                     "requires": contract.requires, "ensures": [e for _, e in contract.ensures],
                     "raises": [(c.__name__, cond, m) for c, cond, m in contract.raises]})
-        # ---- failures
+        # ---- failures (at most 3 reported per contract; the rest are recorded as failed obligations only)
+        reported = 0
         for full, oname, pc, claim, status, model, dt in failed:
+            if reported >= 3:
+                rep.fail(full, "z3", f"{status} (not triaged: earlier failures of this contract already reported)", dt, contract.kind, fname)
+                continue
             self.handle_failure(contract, index, fn, argvalues, full, oname, status, model, dt, rng)
+            reported += 1
+        if native_bad and not failed:
+            # the bounded native evaluation found a failing input that no failed obligation accounts for
+            args, d = native_bad[0]
+            full = f"{self.prop}/{fname}#{index}/bounded:native-contract-evaluation"
+            payload = {"contract": fname, "clause": "native contract evaluation (bounded stand-in)", "args": repr(args), "native": d,
+                       "python": replay_snippet(self.cmod, index, args)}
+            rep.violation(full, payload)
+            rep.extra.setdefault("bounded_violations", []).append(full)
+            if not unsupported and npaths > 0 and not getattr(self, "_used_callsite", False):
+                rep.extra.setdefault("warnings", []).append(
+                    f"{fname}#{index}: all generated obligations discharged but the contract fails natively on {args!r} ({d}): engine or model library unsound for this function")
+                rep.engine_error(f"{fname}#{index}: proof discharged but native evaluation of the same contract fails on {args!r}")
         if unsupported:
             # obligation could not be generated: downgrade to the bounded check already run above
             rep.downgraded.append({"function": fname, "reason": sorted(set(unsupported))[:5],
@@ -537,7 +627,7 @@ class Verifier:
     def _pre(self, it, contract, argvalues):
         env = clause_env(contract, argvalues)
         cond = True
-        for r in contract.requires:
+        for r in contract.requires + contract.requires_symbolic:
             t = it.truth(it.eval_src(r, env))
             cond = zand(cond, t) if not (isinstance(cond, bool) and isinstance(t, bool)) else (cond and t)
         for kid, kexpr in contract.kf:
@@ -647,7 +737,10 @@ class Verifier:
             return
         # no replayable counterexample from the model: look for a failing input with the bounded search
         bad = getattr(self, "_native_bad", {}).get(fname) or []
-        if not bad:
+        searched = getattr(self, "_searched", set())
+        self._searched = searched
+        if not bad and (fname, index) not in searched:
+            searched.add((fname, index))
             bad = self.native_samples(contract, fn, rng, n=contract.nsamples * 10, label="search after failed obligation")
         if bad:
             args, d = bad[0]
